@@ -195,10 +195,10 @@ func dynDesc(cl ssa.CallInstruction) string {
 
 func checkC15(c *Ctx) {
 	c.Rule("R15.1", "frames on every static chain from a front-end entry to runtime.Callers = constant skips along it + the front end's preset; callerSkip enters once", 60)
-	c.Rule("R15.2", "conversions cancel: Sugar +k, Desugar −k, every other derive method leaves callerSkip unchanged", 12)
-	c.Rule("R15.3", "Logger.check is called only by exported Logger methods", 9)
-	c.Rule("R15.4", "one capture shared by caller and stack; attached under exactly addCaller / addStack; slog: stack iff record.Level >= addStackAt, caller from record.PC", 7)
-	c.Rule("R15.5", "whole stack: growth loop re-captures with the same skip while full; only the final frame is dropped", 4)
+	c.Rule("R15.2", "conversions cancel: Sugar +k, Desugar −k, every other derive method leaves callerSkip unchanged", 8)
+	c.Rule("R15.3", "Logger.check is called only by exported Logger methods", 6)
+	c.Rule("R15.4", "one capture shared by caller and stack; attached under exactly addCaller / addStack; slog: stack iff record.Level >= addStackAt, caller from record.PC", 5)
+	c.Rule("R15.5", "whole stack: growth loop re-captures with the same skip while full; only the final frame is dropped", 3)
 
 	zp := ZapPath
 	check := c.Method(zp, "Logger", "check")
